@@ -22,24 +22,41 @@
       consensus safety), heads handed over by trusted peers / header-sub are honest, batches
       passed the p2p layer (`p2pAccepts`), nothing is pruned above the stored head.
 
-  CONVERGENCE (partial): `convergence_variant_decreases_partial` (every accepted batch strictly
-  decreases the number of missing heights, no insertion increases it),
-  `convergence_progress_partial` (while a window height up to the head is missing, an idle
-  connected worker schedules a request), `honest_answer_is_accepted_partial` (the honest headers
-  of any scheduled range pass the p2p layer and the store and decrease the variant) and
-  `converges_when_honest_peers_answer_partial` (the run in which every scheduled request is
-  answered honestly reaches, in at most `missing` answers, a state where every window height up to
-  the head is stored).  NOT proved — `ConvergenceFullStatement`: convergence under arbitrary
-  interleavings with other events; that honest peers do answer and tokio schedules the worker are
-  environment / runtime assumptions (exercised by the correspondence only).
+  CONVERGENCE (PARTIAL: proved under an explicit fairness hypothesis, in the regime where the
+  slow-sync throttle never arms).
+    Building blocks: `convergence_variant_decreases_partial` (every accepted batch strictly
+    decreases the number of missing heights, no insertion increases it),
+    `convergence_progress_partial` (while a window height up to the head is missing, an idle
+    connected worker schedules a request), `honest_answer_is_accepted_partial` (the honest headers
+    of any scheduled range pass the p2p layer and the store and decrease the variant),
+    `converges_when_honest_peers_answer_partial` (the run in which every scheduled request is
+    answered honestly and nothing else happens reaches a full window in ≤ `missing` answers).
+    ARBITRARY INTERLEAVINGS: `variant_never_increases_whatever_the_event` (the potential
+    `Phi` = missing heights of `[1, M]` + staleness of the outstanding request is non-increasing
+    under EVERY admissible event: adversarial answers, failures, disconnect / reconnect, heads,
+    header-sub), `honest_answer_strictly_decreases_variant` (whenever an honest answer arrives),
+    `side_conditions_hold_along_every_run`, and
+    `converges_under_fairness_partial` / `every_known_head_is_reached_under_fairness_partial`: for
+    EVERY infinite admissible event sequence satisfying `FairHonestAnswers` ("as long as the window
+    is not full there is a later moment at which the connected worker is handed the honest answer
+    to its outstanding request") the window up to the head is full again and again, and every
+    head the worker ever knew is reached and stays reached.
+  Environment assumptions (hypotheses, not provable about the node): honest peers do answer
+  (`FairHonestAnswers`), tokio polls the worker and the timeouts of the header session / of
+  `try_init` expire (the model is the sequence of HANDLED events), the announced heads stay below
+  a bound during the run.  Still NOT proved — `ConvergenceFullStatement` as written (no side
+  conditions at all: pruned heights inside the window, an armed slow-sync gate, non-monotone
+  header ages); the regime with a finite pruning window, where the slow-sync throttle hands
+  progress over to the daser / pruner, is outside this model.
 -/
 import Lumina.Proofs.SyncerLoop
+import Lumina.Proofs.SyncerFair
 import Lumina.Gen.C38
 
 namespace Lumina.Props.C38
 open Lumina.Model.Store (Hdr)
 open Lumina.Spec.C19 (AbsStore)
-open Lumina.Model.SyncerLoop Lumina.Proofs.SyncerLoop
+open Lumina.Model.SyncerLoop Lumina.Proofs.SyncerLoop Lumina.Proofs.SyncerFair
 open Lumina.Model.Ranges (mem U64_MAX)
 
 local notation "RInv" => Lumina.Model.Ranges.Inv
@@ -129,12 +146,15 @@ example :
 
 /-! ### convergence (partial) -/
 
-/-- the full liveness statement, NOT proved: under the environment assumption that every
-    scheduled request is eventually answered by an honest peer with the honest headers of the
-    requested range (and that the runtime keeps polling the worker), eventually no height of the
-    sampling window up to the network head is missing.  What IS proved below: the variant that
-    such answers strictly decrease, and that the worker keeps scheduling requests while the
-    variant of the window is positive. -/
+/-- the full liveness statement, NOT proved: from EVERY state satisfying the safety invariant
+    (whatever is pruned, whether or not the slow-sync gate is armed, whatever the ongoing batch)
+    a run exists — the environment only has to let honest peers answer — after which no height of
+    the sampling window up to the network head is missing.  Without side conditions this is out
+    of reach of the model (pruned heights are never re-requested, an armed slow-sync gate waits
+    for the daser, which is not part of it).  What IS proved: the honest schedule from a steady
+    state (`converges_when_honest_peers_answer_partial`), and — for ARBITRARY interleavings of
+    other events, with "honest peers eventually answer" as the explicit hypothesis
+    `FairHonestAnswers` — `converges_under_fairness_partial` below. -/
 def ConvergenceFullStatement : Prop :=
   ∀ (v : Hdr → Hdr → Bool) (c : Nat → Hdr) (e : Env) (s : State) (lo H : Nat),
     Inv c s → s.head = some H → s.phase = .connected → s.peers ≠ 0 →
@@ -223,5 +243,219 @@ example :
       .batch (some (span exChain 6 4)), .batch (some (span exChain 2 4))]
     (run exEnv { batchSize := 4 } evs).store.storedRanges = [(2, 10)] ∧
     (run exEnv { batchSize := 4 } evs).ongoing = none := by decide
+
+/-! ### convergence under arbitrary interleavings, with fairness as an explicit hypothesis -/
+
+/-- **The variant never increases, whatever the event.**  `Phi M s` = number of heights of `[1, M]`
+    that are not stored, + 1 if the outstanding request already overlaps the store (a header-sub
+    insertion can overtake an ongoing forward batch; the honest answer to such a request is then
+    rejected with `HeaderRangeOverlap`).  In every state satisfying the safety invariant and the
+    side conditions `Aux` (nothing pruned, slow-sync not armed, heads ≤ `M`) ANY admissible event —
+    a disconnect / reconnect, a network head, a header-sub announcement, a failed request, ANY
+    accepted answer (adversarial ones are rejected by the store and leave it unchanged, or store
+    honest headers: safety) — leaves `Phi` where it is or decreases it. -/
+theorem variant_never_increases_whatever_the_event (v : Hdr → Hdr → Bool) (c : Nat → Hdr) (e : Env)
+    (M : Nat) (s : State) (hi : Inv c s) (ha : Aux M s) (ev : Ev) (hok : EvOk v c s ev) :
+    Phi M (step e s ev).1 ≤ Phi M s :=
+  step_phi_le hi ha hok
+
+/-- **Every honest answer strictly decreases the variant**, whenever it arrives: the honest
+    headers of the outstanding request either are accepted and store a missing height, or the
+    request was stale and the worker replaces it by a fresh one. -/
+theorem honest_answer_strictly_decreases_variant (v : Hdr → Hdr → Bool) (c : Nat → Hdr)
+    (hc : HonestChain v c) (e : Env) (hev : e.verify = v) (M : Nat) (hM : M < U64_MAX) (s : State)
+    (hi : Inv c s) (ha : Aux M s) (hph : s.phase = .connected) (r : Lumina.Model.Ranges.Range)
+    (hon : s.ongoing = some r) :
+    Phi M (step e s (.batch (some (span c r.1 (r.2 + 1 - r.1))))).1 < Phi M s :=
+  honest_answer_phi_lt hc hev
+    (by have : Lumina.Model.Store.U64_MAX = U64_MAX := rfl
+        omega) hi ha hph hon
+
+/-- the side conditions are not assumed along the run: they hold initially (empty store, batch
+    size ≥ 1) and every admissible event preserves them, together with the safety invariant and
+    "a connected worker without an outstanding request has nothing to schedule" -/
+theorem side_conditions_hold_along_every_run (v : Hdr → Hdr → Bool) (c : Nat → Hdr)
+    (hd : LinkDown v c) (hu : LinkUp v c) (e : Env) (hev : e.verify = v)
+    (hP : ∀ h, e.chain.oldP h = false) (M bs : Nat) (hbs : 1 ≤ bs) (evs : Nat → Ev)
+    (hok : ∀ k, EvOk v c (trace e { batchSize := bs } evs k) (evs k)) (hbl : ∀ k, EvBelow M (evs k))
+    (k : Nat) : Good c e M (trace e { batchSize := bs } evs k) :=
+  trace_good hd hu hev hP (good_init c e M bs hbs) hok hbl k
+
+/-- **"Honest peers eventually answer", as a hypothesis on the event sequence.**  As long as some
+    height of the sampling window up to the head is not stored, there is a LATER moment `j` at
+    which the worker is in `connected_event_loop` and the next event is the honest answer to its
+    outstanding request (if it has one — that it has one is proved, not assumed).  Nothing is
+    said about the other events: between two such moments the environment may interleave
+    adversarial answers, failures, disconnects / reconnects, new heads and header-sub
+    announcements at will, and it may cancel (disconnect) requests before they are answered. -/
+def FairHonestAnswers (c : Nat → Hdr) (e : Env) (s0 : State) (evs : Nat → Ev) : Prop :=
+  ∀ i, ¬ Synced e (trace e s0 evs i) → ∃ j, i ≤ j ∧ HonestAnswerAt c (trace e s0 evs j) (evs j)
+
+/-- **C38 convergence under fairness** (the liveness half: "once honest peers answer, every
+    height in the sampling window up to the network head is eventually stored").
+
+    For EVERY infinite sequence of events `evs` — arbitrary interleavings of peer-count changes
+    (disconnect / reconnect), network heads, header-sub announcements, failed requests and ANY
+    answers the p2p layer accepts — that is admissible (`EvOk`: announced heads are honest,
+    batches passed the p2p layer) and `FairHonestAnswers`: from every point `i` of the run there
+    is a later point `k` at which EVERY height of the sampling window up to the subjective head is
+    stored (`Synced`), and the store holds only honest headers all along
+    (`store_stays_on_honest_chain`).  Proof: `Phi` never increases
+    (`variant_never_increases_whatever_the_event`), strictly decreases at each fair moment
+    (`honest_answer_strictly_decreases_variant`), and a connected worker whose window is not full
+    always has an outstanding request (`Busy` + `convergence_progress_partial`).
+
+    ENVIRONMENT ASSUMPTIONS (hypotheses; not provable about the node):
+      * `FairHonestAnswers`: honest peers do answer — infinitely often while the window is not
+        full, an outstanding request is answered with the honest headers of its range before the
+        environment cancels it, at a moment when the worker is connected (a peer is connected and
+        `try_init` obtained an acceptable head from trusted peers);
+      * that each event is handled at all: tokio polls the worker, `select!` eventually takes
+        the finished request, the timeouts / back-off of the header session and of `try_init`
+        expire — the model is the sequence of HANDLED events;
+      * `hbl`: the announced heads stay at or below some `M < 2^64 - 1` during the run (a head
+        that moves up forever starves the backward sync: the worker always fetches forward
+        first; `M` is a bound, the head may move below it).
+    REGIME (why this stays `_partial`): `hP` — the pruning cutoff is older than every header, so
+    the slow-sync throttle (which hands progress over to the daser / pruner) never arms; pruning
+    is not an event of this model (`Aux.unpruned`); `hmono` — header age is monotone in the
+    height; `LinkDown` / `LinkUp` / `HonestChain` as for safety. -/
+theorem converges_under_fairness_partial (v : Hdr → Hdr → Bool) (c : Nat → Hdr) (hc : HonestChain v c)
+    (hd : LinkDown v c) (hu : LinkUp v c) (e : Env) (hev : e.verify = v)
+    (hP : ∀ h, e.chain.oldP h = false)
+    (hmono : ∀ h1 h2, h1 ≤ h2 → e.chain.oldS h2 = true → e.chain.oldS h1 = true)
+    (M : Nat) (hM : M < U64_MAX) (bs : Nat) (hbs : 1 ≤ bs) (evs : Nat → Ev)
+    (hok : ∀ k, EvOk v c (trace e { batchSize := bs } evs k) (evs k)) (hbl : ∀ k, EvBelow M (evs k))
+    (hfair : FairHonestAnswers c e { batchSize := bs } evs) :
+    ∀ i, ∃ k, i ≤ k ∧ Synced e (trace e { batchSize := bs } evs k) :=
+  fair_converges hc hd hu hev hP hmono hM (good_init c e M bs hbs) hok hbl hfair
+
+/-- the same from any state satisfying the invariants (e.g. a later point of a run), and for the
+    head the worker knew at an arbitrary point `i`: every height of the sampling window up to THAT
+    head is stored from some point on, for ever (new heads may enlarge the window afterwards; the
+    worker catches up with them in turn) -/
+theorem every_known_head_is_reached_under_fairness_partial (v : Hdr → Hdr → Bool) (c : Nat → Hdr)
+    (hc : HonestChain v c) (hd : LinkDown v c) (hu : LinkUp v c) (e : Env) (hev : e.verify = v)
+    (hP : ∀ h, e.chain.oldP h = false)
+    (hmono : ∀ h1 h2, h1 ≤ h2 → e.chain.oldS h2 = true → e.chain.oldS h1 = true)
+    (M : Nat) (hM : M < U64_MAX) (s0 : State) (hg0 : Good c e M s0) (evs : Nat → Ev)
+    (hok : ∀ k, EvOk v c (trace e s0 evs k) (evs k)) (hbl : ∀ k, EvBelow M (evs k))
+    (hfair : FairHonestAnswers c e s0 evs) (i H : Nat) (hH : (trace e s0 evs i).head = some H) :
+    ∃ k, i ≤ k ∧ ∀ k', k ≤ k' → WindowFull e (trace e s0 evs k').store H :=
+  fair_converges_to_head hc hd hu hev hP hmono hM hg0 hok hbl hfair i H hH
+
+/-- `trace` is the `run` of the safety theorems on the first `k` events -/
+theorem trace_is_run (e : Env) (s0 : State) (evs : Nat → Ev) (k : Nat) :
+    trace e s0 evs k = run e s0 ((List.range k).map evs) :=
+  trace_eq_run e s0 evs k
+
+/-! non-vacuity of the fairness theorem: a concrete infinite run meeting every hypothesis, with an
+    adversarial (forked, store-rejected) answer, a failure and a disconnect / reconnect
+    interleaved with the honest answers -/
+
+/-- a fork of height `h`: validated, internally consistent, different hash -/
+def exFork (h : Nat) : Hdr := { id := 1000 + h, height := h, hash := 1000 + h, valid := true }
+
+def exEvs : Nat → Ev
+  | 0 => .peers 1
+  | 1 => .netHead (exChain 6)                 -- connected; 5..5 requested (batch size 1)
+  | 2 => .batch (some [exFork 5])             -- adversarial answer: passes the p2p layer, rejected by the store
+  | 3 => .batch none                          -- the re-issued request fails
+  | 4 => .batch (some (span exChain 5 1))     -- honest answer; 4..4 requested
+  | 5 => .peers 0                             -- disconnect: 4..4 is cancelled
+  | 6 => .peers 2
+  | 7 => .netHead (exChain 6)                 -- reconnect; 4..4 re-issued
+  | 8 => .batch (some (span exChain 4 1))     -- honest answer: 4..6 stored, heights ≤ 3 are outside the window
+  | _ => .peers 2
+
+
+theorem ex_link_down : LinkDown exVerify exChain := by
+  intro a b hv _ ha _
+  simp only [exVerify, Bool.and_eq_true, beq_iff_eq] at hv
+  exact ⟨ha, by simp [exChain]; exact hv.1.2⟩
+
+theorem ex_link_up : LinkUp exVerify exChain := by
+  intro a b hv _ hb _
+  simp only [exVerify, Bool.and_eq_true, beq_iff_eq] at hv
+  exact ⟨hb, by simp [exChain]; exact hv.2⟩
+
+theorem ex_honest_chain : HonestChain exVerify exChain where
+  height := fun _ => rfl
+  valid := fun _ => rfl
+  hashInj := fun _ _ h => h
+  verifies := by
+    intro a b ha hb hh
+    simp only [exVerify, Bool.and_eq_true, beq_iff_eq]
+    exact ⟨⟨hh, by have := ha.2; simpa [exChain] using this⟩, by have := hb.2; simpa [exChain] using this⟩
+
+/-- the outstanding requests of the example run (the forked answer and the failure leave the
+    store unchanged and the request 5..5 is re-issued) -/
+theorem ex_ongoing :
+    (trace exEnv { batchSize := 1 } exEvs 2).ongoing = some (5, 5) ∧
+    (trace exEnv { batchSize := 1 } exEvs 3).ongoing = some (5, 5) ∧
+    (trace exEnv { batchSize := 1 } exEvs 3).store.storedRanges = [(6, 6)] ∧
+    (trace exEnv { batchSize := 1 } exEvs 4).ongoing = some (5, 5) ∧
+    (trace exEnv { batchSize := 1 } exEvs 4).phase = .connected ∧
+    (trace exEnv { batchSize := 1 } exEvs 8).ongoing = some (4, 4) ∧
+    (trace exEnv { batchSize := 1 } exEvs 8).phase = .connected := by decide
+
+/-- every event of the example run is admissible … -/
+theorem ex_admissible : ∀ k, EvOk exVerify exChain (trace exEnv { batchSize := 1 } exEvs k) (exEvs k)
+  | 0 => trivial
+  | 1 => ⟨⟨rfl, rfl⟩, by simp [HdrWf, exChain, Lumina.Model.Store.U64_MAX]⟩
+  | 2 => ⟨fun r hr => by rw [ex_ongoing.1] at hr; injection hr with hr; subst hr; decide,
+          fun x hx => by simp at hx; subst hx; simp [HdrWf, exFork, Lumina.Model.Store.U64_MAX]⟩
+  | 3 => trivial
+  | 4 => ⟨fun r hr => by rw [ex_ongoing.2.2.2.1] at hr; injection hr with hr; subst hr; decide,
+          fun x hx => by simp [span] at hx; subst hx; simp [HdrWf, exChain, Lumina.Model.Store.U64_MAX]⟩
+  | 5 => trivial
+  | 6 => trivial
+  | 7 => ⟨⟨rfl, rfl⟩, by simp [HdrWf, exChain, Lumina.Model.Store.U64_MAX]⟩
+  | 8 => ⟨fun r hr => by rw [ex_ongoing.2.2.2.2.2.1] at hr; injection hr with hr; subst hr; decide,
+          fun x hx => by simp [span] at hx; subst hx; simp [HdrWf, exChain, Lumina.Model.Store.U64_MAX]⟩
+  | _ + 9 => trivial
+
+/-- … its heads stay at or below 6 … -/
+theorem ex_below : ∀ k, EvBelow 6 (exEvs k)
+  | 0 => trivial
+  | 1 => Nat.le_refl _
+  | 2 => trivial
+  | 3 => trivial
+  | 4 => trivial
+  | 5 => trivial
+  | 6 => trivial
+  | 7 => Nat.le_refl _
+  | 8 => trivial
+  | _ + 9 => trivial
+
+/-- … from event 9 on the window 4..6 is full … -/
+theorem ex_synced_tail : ∀ n, Synced exEnv (trace exEnv { batchSize := 1 } exEvs (n + 9))
+  | 0 => ⟨6, by decide, fun m _ h2 h3 =>
+      (by decide : ∀ m < 7, exEnv.chain.oldS m = false →
+        (trace exEnv { batchSize := 1 } exEvs 9).store.stored m = true) m (by omega) h3⟩
+  | n + 1 => by
+    show Synced exEnv (step exEnv (trace exEnv { batchSize := 1 } exEvs (n + 9)) (.peers 2)).1
+    exact synced_peers exEnv _ 2 (ex_synced_tail n)
+
+/-- … and it is fair: the honest answers are events 4 and 8 -/
+theorem ex_fair : FairHonestAnswers exChain exEnv { batchSize := 1 } exEvs := by
+  intro i hns
+  by_cases h4 : i ≤ 4
+  · exact ⟨4, h4, ex_ongoing.2.2.2.2.1, fun r hr => by
+      rw [ex_ongoing.2.2.2.1] at hr; injection hr with hr; subst hr; rfl⟩
+  · by_cases h8 : i ≤ 8
+    · exact ⟨8, h8, ex_ongoing.2.2.2.2.2.2, fun r hr => by
+        rw [ex_ongoing.2.2.2.2.2.1] at hr; injection hr with hr; subst hr; rfl⟩
+    · exfalso
+      obtain ⟨n, rfl⟩ : ∃ n, i = n + 9 := ⟨i - 9, by omega⟩
+      exact hns (ex_synced_tail n)
+
+/-- so the theorem applies to it (and its conclusion is not reached before event 9) -/
+example : ∀ i, ∃ k, i ≤ k ∧ Synced exEnv (trace exEnv { batchSize := 1 } exEvs k) :=
+  converges_under_fairness_partial exVerify exChain ex_honest_chain ex_link_down ex_link_up exEnv rfl
+    (fun _ => rfl) (fun h1 h2 hle h => by simp [exEnv] at h ⊢; omega) 6 (by decide) 1 (Nat.le_refl _)
+    exEvs ex_admissible ex_below ex_fair
+
+example : (trace exEnv { batchSize := 1 } exEvs 8).store.stored 4 = false := by decide
 
 end Lumina.Props.C38
